@@ -1166,9 +1166,21 @@ class _Rename2(ast.NodeTransformer):
         return node
 
 
+def _boolish(e):
+    if isinstance(e, ast.Compare) or (isinstance(e, ast.UnaryOp) and isinstance(e.op, ast.Not)):
+        return True
+    if isinstance(e, ast.BoolOp):
+        return all(_boolish(v) for v in e.values)
+    if isinstance(e, ast.Constant) and isinstance(e.value, bool):
+        return True
+    if isinstance(e, ast.Call) and isinstance(e.func, ast.Name) and e.func.id in ("isinstance", "callable", "hasattr", "any", "all", "bool", "issubclass"):
+        return True
+    return False
+
+
 def normalise_shortcircuit(tree):
-    """`t = A or B` with an effectful B is `t = A` / `if not t: t = B` (and dually for `and`): each operand is still evaluated
-    at most once and in order; the statement form shows path-based rules when B runs.  Only plain local targets that no later
+    """`t = A or B` is `t = A` / `if not t: t = B` (and dually for `and`): each operand is still evaluated at most once and in
+    order; the statement form shows path-based rules which operand is the value.  Only plain local targets that no later
     operand reads."""
     n = 0
     counter = [0]
@@ -1182,8 +1194,10 @@ def normalise_shortcircuit(tree):
                 st = stmts[i]
                 i += 1
                 val = getattr(st, "value", None)
-                if not isinstance(val, ast.BoolOp) or all(pure(v) for v in val.values[1:]):
+                if not isinstance(val, ast.BoolOp):
                     continue
+                if all(pure(v) for v in val.values[1:]) and all(_boolish(v) for v in val.values):
+                    continue  # a logical expression: its value is the truth value itself
                 if isinstance(st, ast.Assign) and len(st.targets) == 1 and isinstance(st.targets[0], ast.Name):
                     t, tail = st.targets[0].id, []
                 elif isinstance(st, ast.Return):
